@@ -300,8 +300,8 @@ class BMC:
         return {"names": names, "steps": steps, "out_rows": [m.eval(fs["fcell"][OUT][j], True).as_long() for j in range(min(outlen, self.CAP))],
                 "thread_prog": list(self.thread_prog)}
 
-    def obligations(self):
-        """-> list of (name, verdict, counterexample or None); verdict 'holds' / 'violated' / 'unknown'"""
+    def obligations(self, only=None):
+        """-> list of (name, verdict, counterexample or None); verdict 'holds' / 'violated' / 'unknown'.  only: decide just this obligation (plus vacuity)"""
         fsT = self.S[self.T]
         allfin = self._allfin(fsT)
         res = []
@@ -313,7 +313,12 @@ class BMC:
             good.append(cnt == z3.If(submitted, 1, 0))
         for name, cond in (("exactly_one_row_per_distinct_subject", z3.And(allfin, z3.Not(z3.And(good)))),
                            ("no_call_blocks_forever", z3.Or(self.blocked)),
+                           # inductive step for histories longer than the bound: once every call has returned no lock is left held
+                           # (otherwise the next call, whoever makes it, blocks forever)
+                           ("locks_free_once_all_calls_returned", z3.And(allfin, z3.Or([fsT["lock"][L] != -1 for L in self.LOCKS] + [z3.BoolVal(False)]))),
                            ("only_complete_rows_are_read", z3.Or([st["torn"] for st in self.S]))):
+            if only is not None and name != only:
+                continue
             r = self._check(name, cond)
             res.append((name, {"unsat": "holds", "sat": "violated"}.get(r, "unknown"), self.decode() if r == "sat" else None))
         r = self._check("vacuity_completion_reachable", allfin)
